@@ -239,3 +239,126 @@ Example C04_ts_negative_millis_floor :
   decode Ex tss (q "Stamps") (JObj [(s "atMillis", JNum (-1))]) = ROk [(s "at_millis", tsv (-1) 999000000)].
 Proof. exact ts_negative_millis_floor. Qed.
 Print Assumptions C04_ts_negative_millis_floor.
+
+(* ---- the empty_behavior codec (empty_behavior.go), in general: every schema, every well-typed value;
+   PRESERVE / NULL / OMIT, children empty / non-empty / absent.  [norm] drops the presence of an empty OMIT child.
+   Side condition (shown necessary below): no NULL field of type Timestamp holds the epoch.  (That the emitted
+   codec compiles, [buildable sc FtEmpty md = true], follows from [encode ... = ROk j] and is not assumed.) *)
+From SebufProofs Require Import MappingFacts EmptyFacts EmptyConforms.
+Theorem C04_roundtrip_empty : forall E, ExtLaws E -> forall sc tn md m j,
+  str_eqb tn ts_name = false -> is_wkt_other tn = false ->
+  find_message (all_messages sc) tn = Some md -> owner_of sc md = Own FtEmpty ->
+  nodup_str (map jn (m_fields md)) = true ->
+  epoch_null_free md m = true ->
+  wt sc (KMessage tn) (FM m) = true ->
+  encode E sc tn m = ROk j -> decode E sc tn j = ROk (norm sc tn m).
+Proof. exact EmptyFacts.empty_roundtrip. Qed.
+Print Assumptions C04_roundtrip_empty.
+(* schema-level side condition: no empty_behavior = NULL field is a Timestamp *)
+Theorem C04_roundtrip_empty_schema : forall E, ExtLaws E -> forall sc tn md m j,
+  str_eqb tn ts_name = false -> is_wkt_other tn = false ->
+  find_message (all_messages sc) tn = Some md -> owner_of sc md = Own FtEmpty ->
+  nodup_str (map jn (m_fields md)) = true ->
+  null_not_ts md = true ->
+  wt sc (KMessage tn) (FM m) = true ->
+  encode E sc tn m = ROk j -> decode E sc tn j = ROk (norm sc tn m).
+Proof. exact EmptyFacts.empty_roundtrip_schema. Qed.
+Print Assumptions C04_roundtrip_empty_schema.
+
+(* norm is idempotent — for every message type, whatever codec it owns, and every value *)
+Theorem C04_norm_idempotent : forall sc tn m, norm sc tn (norm sc tn m) = norm sc tn m.
+Proof. exact EmptyFacts.norm_idempotent. Qed.
+Print Assumptions C04_norm_idempotent.
+Theorem C04_norm_idempotent_simple : forall sc tn md m,
+  lookup_message sc tn = Some md ->
+  (owner_of sc md = OwnNone \/ owner_of sc md = Own FtEmpty \/ owner_of sc md = Own FtTs \/
+   owner_of sc md = Own FtNullable \/ owner_of sc md = Own FtInt64 \/ owner_of sc md = Own FtBytes) ->
+  norm sc tn (norm sc tn m) = norm sc tn m.
+Proof. exact EmptyFacts.norm_idempotent_simple. Qed.
+Print Assumptions C04_norm_idempotent_simple.
+
+(* norm is the identity on a message type without lossy annotations: no UNIX_SECONDS / UNIX_MILLIS / DATE
+   timestamp_format field, no empty_behavior = OMIT field, no map whose values are unwrap wrappers *)
+Theorem C04_norm_id_without_lossy_annotations : forall sc tn m,
+  (forall md, lookup_message sc tn = Some md -> lossy_free sc md = true) ->
+  norm sc tn m = m.
+Proof. exact EmptyFacts.norm_id_without_lossy. Qed.
+Print Assumptions C04_norm_id_without_lossy_annotations.
+
+(* refutation: without the side condition the round trip fails (epoch Timestamp under empty_behavior = NULL) *)
+Example C04_roundtrip_empty_needs_epoch_null_free :
+  let md := tsnull_md in
+    let m := [(s "at", FM []); (s "id", vstr "x")] in
+    str_eqb (q "TsNull") ts_name = false /\ is_wkt_other (q "TsNull") = false /\
+    find_message (all_messages ebs) (q "TsNull") = Some md /\ owner_of ebs md = Own FtEmpty /\
+    buildable ebs FtEmpty md = true /\ nodup_str (map jn (m_fields md)) = true /\
+    wt ebs (KMessage (q "TsNull")) (FM m) = true /\
+    epoch_null_free md m = false /\ null_not_ts md = false /\
+    encode Ex ebs (q "TsNull") m = ROk (JObj [(s "at", JNull); (s "id", JStr (s "x"))]) /\
+    to_json Ex ebs (q "TsNull") m = ROk (JObj [(s "at", JNull); (s "id", JStr (s "x"))]) /\
+    decode Ex ebs (q "TsNull") (JObj [(s "at", JNull); (s "id", JStr (s "x"))]) = RErr (s "invalid timestamp").
+Proof. exact EmptyConforms.empty_roundtrip_needs_epoch_null_free. Qed.
+Print Assumptions C04_roundtrip_empty_needs_epoch_null_free.
+Example C04_norm_id_needs_no_unwrap_values :
+  let md := book_md in
+    let m := [(s "pages", FMap [(VStr (s "k"), FM [(s "items", FL [vstr "a"]); (s "total", vint 3)])])] in
+    lookup_message ebs (q "Book") = Some md /\
+    forallb (fun f => match tsfmt_of f with None => negb (is_omitf f) | _ => false end) (m_fields md) = true /\
+    lossy_free ebs md = false /\
+    wt ebs (KMessage (q "Book")) (FM m) = true /\
+    norm ebs (q "Book") m = [(s "pages", FMap [(VStr (s "k"), FM [(s "items", FL [vstr "a"])])])].
+Proof. exact EmptyConforms.norm_id_needs_no_unwrap_values. Qed.
+
+(* non-vacuity: PRESERVE, NULL and OMIT side by side; every child empty, every annotated child absent *)
+Example C04_empty_nonvacuous :
+  let md := emp3_md in
+    str_eqb (q "Emp3") ts_name = false /\ is_wkt_other (q "Emp3") = false /\
+    find_message (all_messages ebs) (q "Emp3") = Some md /\ owner_of ebs md = Own FtEmpty /\
+    buildable ebs FtEmpty md = true /\ nodup_str (map jn (m_fields md)) = true /\
+    null_not_ts md = true /\ empplain_msg md = true /\
+    (let m := [(s "keep_it", FM []); (s "nul_it", FM []); (s "omit_it", FM []); (s "omit_at", FM []); (s "id", vstr "x")] in
+     wt ebs (KMessage (q "Emp3")) (FM m) = true /\ epoch_null_free md m = true /\
+     forallb (fun e => match find_field (m_fields md) (fst e) with
+                       | Some f => plain_in ebs (f_kind f) (snd e) | None => false end) m = true /\
+     encode Ex ebs (q "Emp3") m = ROk (JObj [(s "keepIt", JObj []); (s "nulIt", JNull); (s "id", JStr (s "x"))]) /\
+     to_json Ex ebs (q "Emp3") m = ROk (JObj [(s "keepIt", JObj []); (s "nulIt", JNull); (s "id", JStr (s "x"))]) /\
+     decode Ex ebs (q "Emp3") (JObj [(s "keepIt", JObj []); (s "nulIt", JNull); (s "id", JStr (s "x"))])
+       = ROk [(s "keep_it", FM []); (s "nul_it", FM []); (s "id", vstr "x")] /\
+     norm ebs (q "Emp3") m = [(s "keep_it", FM []); (s "nul_it", FM []); (s "id", vstr "x")]) /\
+    (let m := [(s "id", vstr "x")] in
+     wt ebs (KMessage (q "Emp3")) (FM m) = true /\
+     encode Ex ebs (q "Emp3") m = ROk (JObj [(s "id", JStr (s "x"))]) /\
+     decode Ex ebs (q "Emp3") (JObj [(s "id", JStr (s "x"))]) = ROk m).
+Proof. exact EmptyConforms.empty_nonvacuous. Qed.
+(* every child non-empty: nothing is lost *)
+Example C04_empty_nonvacuous_nonempty :
+  let md := emp3_md in
+  let m := [(s "keep_it", FM [(s "a", vstr "k")]); (s "nul_it", FM [(s "n", vint 7)]); (s "omit_it", FM [(s "a", vstr "o")]);
+            (s "omit_at", tsv 5 0); (s "plain_leaf", FM [])] in
+  let j := JObj [(s "keepIt", JObj [(s "a", JStr (s "k"))]); (s "nulIt", JObj [(s "n", JStr (s "7"))]);
+                 (s "omitIt", JObj [(s "a", JStr (s "o"))]); (s "omitAt", JStr (s "1970-01-01T00:00:05Z"));
+                 (s "plainLeaf", JObj [])] in
+  wt ebs (KMessage (q "Emp3")) (FM m) = true /\ epoch_null_free md m = true /\
+  forallb (fun e => match find_field (m_fields md) (fst e) with
+                    | Some f => plain_in ebs (f_kind f) (snd e) | None => false end) m = true /\
+  norm ebs (q "Emp3") m = m /\
+  encode Ex ebs (q "Emp3") m = ROk j /\ to_json Ex ebs (q "Emp3") m = ROk j /\ decode Ex ebs (q "Emp3") j = ROk m.
+Proof. exact EmptyConforms.empty_nonvacuous_nonempty. Qed.
+(* on the shared witness schema (value from CodecCases / CodecExamples [xs]) *)
+Example C04_empty_nonvacuous_xs :
+  let md := emp_md in
+    find_message (all_messages xs) (q "Emp") = Some md /\ owner_of xs md = Own FtEmpty /\
+    buildable xs FtEmpty md = true /\ nodup_str (map jn (m_fields md)) = true /\
+    null_not_ts md = true /\ empplain_msg md = true /\
+    (let m := [(s "nul_it", FM []); (s "omit", FM []); (s "id", vstr "x")] in
+     wt xs (KMessage (q "Emp")) (FM m) = true /\
+     encode Ex xs (q "Emp") m = ROk (JObj [(s "nulIt", JNull); (s "id", JStr (s "x"))]) /\
+     decode Ex xs (q "Emp") (JObj [(s "nulIt", JNull); (s "id", JStr (s "x"))]) = ROk [(s "nul_it", FM []); (s "id", vstr "x")] /\
+     norm xs (q "Emp") m = [(s "nul_it", FM []); (s "id", vstr "x")]).
+Proof. exact EmptyConforms.empty_nonvacuous_xs. Qed.
+Example C04_norm_id_nonvacuous :
+  (forall md, lookup_message xs (q "Nums") = Some md -> lossy_free xs md = true) /\
+  (forall md, lookup_message xs (q "Plain") = Some md -> lossy_free xs md = true) /\
+  (forall md, lookup_message ebs (q "TsNull") = Some md -> lossy_free ebs md = true) /\
+  owner_of ebs tsnull_md = Own FtEmpty.
+Proof. exact EmptyConforms.norm_id_nonvacuous. Qed.
